@@ -19,6 +19,7 @@ type Prover struct {
 	// State
 	tpk                 PK
 	publicKeysOfParties map[uint16]PK
+	parties2EvalPoints  map[uint16]int64
 	c                   *math.Curve
 	msgLen              int
 	pp                  PP
@@ -35,8 +36,12 @@ func (p *Prover) Init(curve *math.Curve, msgLen int, thresholdPK []byte, parties
 	}
 
 	p.publicKeysOfParties = make(map[uint16]PK)
+	p.parties2EvalPoints = make(map[uint16]int64)
 
 	for i, party := range parties {
+		// The i-th party holds the share of evaluation point i+1, whatever its identifier is
+		p.parties2EvalPoints[party] = int64(i + 1)
+
 		var pk PK
 		if err := pk.fromBytes(p.c, tpk.PublicKeys[i]); err != nil {
 			return err
@@ -95,7 +100,11 @@ func (p *Prover) ProveKnowledgeOfSignature(us *UnblindingSecret, signers []uint1
 
 	evaluationPoints := make([]int64, len(signers))
 	for i, signer := range signers {
-		evaluationPoints[i] = int64(signer)
+		evaluationPoint, exists := p.parties2EvalPoints[signer]
+		if !exists {
+			panic(fmt.Sprintf("signer %d is not among the parties the prover was initialized with", signer))
+		}
+		evaluationPoints[i] = evaluationPoint
 	}
 
 	// initialize hPrime to be zero
@@ -103,8 +112,8 @@ func (p *Prover) ProveKnowledgeOfSignature(us *UnblindingSecret, signers []uint1
 	hPrime.Sub(hPrime)
 
 	// Combine all witnesses into a single one with the lagrange coefficients
-	for i, signer := range signers {
-		l := lagrangeCoefficient(int64(signer), evaluationPoints...)
+	for i := range signers {
+		l := lagrangeCoefficient(evaluationPoints[i], evaluationPoints...)
 		w := math.G1(witnesses[i])
 		hPrime.Add(w.Mul(l))
 	}
